@@ -47,14 +47,27 @@ def run(ctx):
     ul, fl = G.defs[G.one('cctz::TimeZoneInfo::LocalTime', 'TransitionType')]
     ul2, fl2 = G.defs[G.one('cctz::TimeZoneInfo::LocalTime', 'Transition&')]
     cmp_fields = set()
+    tie_fields = {}
     K = Keys(u)
     for x in walk(fe):
+        if x.get('kind') == 'CallExpr' and callee(x) and callee(x)[0] == 'fn' and callee(x)[1].get('name') == 'tie':
+            # fields compared member-wise through std::tie(a.f, ..) == std::tie(b.f, ..)
+            for a_ in call_args(x):
+                pa_ = peel(a_)
+                if pa_ is not None and pa_.get('kind') == 'MemberExpr':
+                    tie_fields.setdefault(K.key(kids(pa_)[0]), []).append(pa_.get('name'))
         if x.get('kind') == 'BinaryOperator' and x.get('opcode') in ('!=', '=='):
             a, b = [peel(c) for c in kids(x)]
             if a.get('kind') == 'MemberExpr' and b.get('kind') == 'MemberExpr' and a.get('name') == b.get('name'):
                 ba, bb = K.key(kids(a)[0]), K.key(kids(b)[0])
                 if ba != bb:
                     cmp_fields.add(a.get('name'))
+    # two ties over different objects compare position-wise: a field is compared when it stands at the same position in both
+    objs_ = list(tie_fields.items())
+    if len(objs_) == 2 and len(objs_[0][1]) == len(objs_[1][1]):
+        for (fa_, fb_) in zip(objs_[0][1], objs_[1][1]):
+            if fa_ == fb_:
+                cmp_fields.add(fa_)
     read1, read2 = set(), set()
     for (uu_, ff_) in ctx.scope(fl):          # LocalTime and the file-local helpers it may be split into
         read1 |= set(_fields_read(uu_, ff_, 'TransitionType'))
